@@ -76,7 +76,10 @@ def setup():
     # the SAME compiled chemicals object as t1 under another mixture model (excess energies included): a package
     # change (or `copy(thermo=)`) that leaves the chemicals object, flows, phase, T, P and composition keys untouched
     t4 = tmo.Thermo(chems, mixture=tmo.IdealMixture.from_chemicals(chems, include_excess_energies=True), cache=False)
-    THERMOS[:] = [t1, t2, t3, t4]
+    # the same compiled chemicals under an equation-of-state mixture (Peng-Robinson): its H / S / Cn functions take
+    # per-phase arguments that the mixture object loads for a solve and must clear afterwards
+    t5 = tmo.Thermo(chems, mixture=tmo.PRMixture.from_chemicals(chems), cache=False)
+    THERMOS[:] = [t1, t2, t3, t4, t5]
     tmo.settings.set_thermo(t1)
     # count real evaluations of the mixture functions: methods of the mixture class (H, S, xH, …) are wrapped on
     # the class; properties held as model objects in slots (Cn, V, mu, kappa, …) by wrapping their class's __call__
@@ -199,6 +202,7 @@ class World:
         self.proxied = set()    # object ids that have a proxy
         self.snaps = {}         # object id -> StreamData from get_data()
         self.dicts = []         # memo dict objects in order of first appearance on a read line (kept alive: ids stay unique)
+        self.seen = {}          # (package, property, state) -> first value read there in this history
         self.executed = []      # operations that really ran (a generated op may be skipped or cut off)
 
     def dict_no(self, d):
@@ -233,6 +237,7 @@ def fresh_like(s):
 def same(a, b):
     if a is None or b is None: return a is None and b is None
     a, b = float(a), float(b)
+    if a != a or b != b: return a != a and b != b
     # relative only: transport properties are as small as 1e-6 (an absolute 1e-9 would hide 0.1 % staleness there)
     return a == b or abs(a - b) <= 1e-9 * max(abs(a), abs(b))
 
@@ -326,6 +331,14 @@ def run_ops(ops):
                     ref = getattr(fresh_like(s), attr)
                 except Exception:
                     continue          # the reference stream cannot be built / read in this state: nothing to compare
+                # "regardless of how the stream reached that state": an earlier read of the same property in the very same
+                # state (package, phase(s), T, P, flows) during this history gave the value the property has there
+                hk = (pkg_id(s.thermo), attr, state_key(s, False), tuple(map(float, np.asarray(s.imol.data.sum(0) if isinstance(s, tmo.MultiStream) else s.imol.data.to_array()).ravel())))
+                if hk in w.seen and not same(w.seen[hk], val) and same(val, ref):
+                    failures.append({'signature': f'history-dependent:{w.kind[o]}:after-{w.last_mut[0]}', 'op_index': len(model_in) - 1,
+                                     'what': f'`{attr}` reads {val!r} (a fresh stream agrees) but the same property read earlier in this history in the '
+                                             f'identical state gave {w.seen[hk]!r}: the value depends on what happened in between (last mutation {w.last_mut[0]})'})
+                w.seen.setdefault(hk, val)
                 if not same(val, ref):
                     kind = 'proxy-pair' if (w.kind[o] == 'proxy' or o in w.proxied) else w.kind[o]
                     sig = f'stale:{kind}:after-{w.last_mut[0]}'
@@ -459,6 +472,15 @@ def run_ops(ops):
                 elif op == 'setmass':
                     if isinstance(s, tmo.MultiStream): s.imass[s.phases[int(t[4]) % len(s.phases)], t[2]] = float(t[3])
                     else: s.imass[t[2]] = float(t[3])
+                elif op == 'badset':
+                    # an assignment the solver must reject (no temperature gives it): the call raises, the stream may be left
+                    # at another T / phase (a state change like any other), nothing else may be left behind anywhere
+                    try:
+                        if t[2] == 'H': s.H = -1e12
+                        elif t[2] == 'S': s.S = float('nan')
+                        else: s.h = -1e12
+                    except Exception:
+                        pass
                 elif op == 'setvol':
                     # a flow assigned in volumetric units (fills the flow view's own molar-volume memo)
                     if isinstance(s, tmo.MultiStream): s.ivol[s.phases[int(t[4]) % len(s.phases)], t[2]] = float(t[3])
@@ -579,7 +601,7 @@ def gen_case(rng, length):
         ph = rng.choice(['l', 'g']) if kind == 'single' else rng.choice(['lg', 'lg', 'lLg', 'ls'])
         fl = gen_flows(rng, 10)
         if all(x in ('0',) for x in fl.split(',')): fl = '1,' + fl[2:]
-        ops.append(f'new {kind} {rng.choice([0, 0, 0, 0, 2, 3])} {rng.choice(TS)} {rng.choice(PS)} {ph} {fl}')
+        ops.append(f'new {kind} {rng.choice([0, 0, 0, 0, 2, 3, 4])} {rng.choice(TS)} {rng.choice(PS)} {ph} {fl}')
         kinds.append(kind)
     new()
     if rng.random() < 0.6: new()
@@ -672,7 +694,8 @@ def gen_case(rng, length):
             if k < 0.15: ops.append(f'setmass {o} {rng.choice(["Water", "Ethanol"])} {rng.choice([0, 18.0, 92.5])} {rng.randrange(3)}')
             elif k < 0.3: ops.append(f'setprop {o} ' + rng.choice(['h 15.0', 'h -12.5', 'Hnet 20.0', 'F_mol 2', 'F_mol 0.5', 'F_mass 3', 'F_vol 2']))
             elif k < 0.6: ops.append(f'settotal {o} {rng.choice([1.0, 12.5, 300.0])} {rng.choice(["kmol/hr", "kg/hr"])}')
-            else: ops.append(f'vle {o} {rng.choice([350.0, 360.0, 370.5])} {rng.choice(PS)}')
+            elif k < 0.8: ops.append(f'vle {o} {rng.choice([350.0, 360.0, 370.5])} {rng.choice(PS)}')
+            else: ops.append(f'badset {o} {rng.choice("HSh")}')
         elif r < 0.75: ops.append(f'scale {o} {rng.choice([2, 0.5, 3, 1])}')
         elif r < 0.765: ops.append(f'empty {o}')
         elif r < 0.79 and len(kinds) >= 2:
@@ -722,7 +745,7 @@ def gen_case(rng, length):
             a = rng.randrange(len(kinds))
             ops.append(f'link {o} {a} {rng.randrange(2)} {rng.randrange(2)} {rng.randrange(2)}')
         elif r < 0.93: ops.append(f'unlink {o}')
-        elif r < 0.95: ops.append(f'thermo {o} {rng.choice([0, 1, 2, 2, 0, 3, 3])}')
+        elif r < 0.95: ops.append(f'thermo {o} {rng.choice([0, 1, 2, 2, 0, 3, 3, 4])}')
         elif r < 0.975 and kinds[o] == 'multi' and len(kinds) < 6:
             ops.append(f'view {o} {rng.choice("lg")}'); kinds.append('view')
         elif kinds[o] == 'multi':
@@ -770,6 +793,13 @@ def gen_scenario(rng):
         ops.append(f'link 0 1 {rng.choice([0, 0, 1])} 0 1')
         ops.append(rng.choice([f'setT 1 {rng.choice(TS)}', f'setP 1 {rng.choice(PS)}', f'setT 0 {rng.choice(TS)}']))
         ops += [f'readflow {rd} {u}', f'readflow 1 {u}', 'read 0 F_vol']
+    elif k < 0.9:
+        # a rejected H / S assignment on one stream must leave nothing behind in the (shared) property package: a second
+        # stream of the package reads a property, leaves the state and comes back to exactly that state afterwards
+        pk = rng.choice([4, 4, 4, 0, 3]); at = rng.choice(['H', 'S', 'Cn', 'h', 'C'])
+        ops.append(f'new single {pk} {T0} {P0} {rng.choice("lg")} {fl()}'); ops.append(f'new single {pk} {rng.choice(TS)} {rng.choice(PS)} {rng.choice("lg")} {fl()}')
+        T1 = rng.choice([t for t in TS if t != T0])
+        ops += [f'read 0 {at}', f'badset 1 {rng.choice("HSh")}', f'setT 0 {T1}', f'read 0 {at}', f'setT 0 {T0}', f'read 0 {at}', f'read 1 {at}']
     else:
         # a phase view read before and after its parent changes package (same chemicals, other models)
         ph = rng.choice(['lg', 'lLg']); at = rng.choice(ATTRS_SINGLE)
